@@ -153,6 +153,12 @@ def render_fiber_params(f, as_int):
     return p
 
 
+def render_band(b, as_int):
+    out = {'f_min': to_number(b['f_min'], as_int), 'f_max': to_number(b['f_max'], as_int)}
+    put(out, 'spacing', b['spacing'], as_int)
+    return out
+
+
 def render_topology(d, as_int):
     r = d['roadm']
     rp = {'restrictions': {'preamp_variety_list': [], 'booster_variety_list': []}}
@@ -163,8 +169,7 @@ def render_topology(d, as_int):
             rp[key] = {e['deg']: to_number(e['v'], as_int) for e in r['perdeg'][ty]}
     if r['degbands']:
         rp['per_degree_design_bands'] = {
-            e['deg']: [{'f_min': to_number(b['f_min'], as_int), 'f_max': to_number(b['f_max'], as_int)} for b in e['bands']]
-            for e in r['degbands']}
+            e['deg']: [render_band(b, as_int) for b in e['bands']] for e in r['degbands']}
     basic = {'length': 50.0, 'loss_coef': 0.2, 'length_units': 'km', 'att_in': 0, 'con_in': 0.5, 'con_out': 0.5}
     els = [
         {'uid': 'trx A', 'type': 'Transceiver', 'metadata': meta('A')},
@@ -216,8 +221,9 @@ def deg_order(entries):
 def proj_bands(bs, form, ex, w):
     out = []
     for i, b in enumerate(bs if isinstance(bs, list) else []):
-        out.append({'f_min': pv(g(b, 'f_min'), form, ex, f'{w}/{i}/f_min'), 'f_max': pv(g(b, 'f_max'), form, ex, f'{w}/{i}/f_max')})
-        leftovers(b, ('f_min', 'f_max'), ex, f'{w}/{i}')
+        out.append({'f_min': pv(g(b, 'f_min'), form, ex, f'{w}/{i}/f_min'), 'f_max': pv(g(b, 'f_max'), form, ex, f'{w}/{i}/f_max'),
+                    'spacing': pv(g(b, 'spacing'), form, ex, f'{w}/{i}/spacing')})
+        leftovers(b, ('f_min', 'f_max', 'spacing'), ex, f'{w}/{i}')
     return out
 
 
@@ -625,7 +631,8 @@ def render_service(d, as_int):
     out = {'path-request': reqs}
     if d['sync']:
         out['synchronization'] = [{'synchronization-id': s['id'],
-                                   'svec': {'relaxable': False, 'disjointness': 'node link', 'request-id-number': list(s['ids'])}}
+                                   'svec': {'relaxable': s['relaxable'], 'disjointness': 'node link',
+                                            'request-id-number': list(s['ids'])}}
                                   for s in d['sync']]
     return out
 
@@ -663,7 +670,12 @@ def proj_service(doc, form):
                                 'bandwidth': pv(g(te, 'path_bandwidth'), form, ex, f'{w}/path_bandwidth'),
                                 'spacing': pv(g(te, 'spacing'), form, ex, f'{w}/spacing')})
         for s in doc.get('synchronization', []):
-            out['sync'].append({'id': str(s['synchronization-id']), 'ids': [str(x) for x in s['svec']['request-id-number']]})
+            rel = s['svec'].get('relaxable', '~absent')
+            if not isinstance(rel, bool):
+                ex.append('synchronization/svec/relaxable:not-a-boolean')
+                rel = False
+            out['sync'].append({'id': str(s['synchronization-id']), 'ids': [str(x) for x in s['svec']['request-id-number']],
+                                'relaxable': rel})
     except (KeyError, IndexError, TypeError, AttributeError) as e:
         ex.append(f'service:not-projectable({type(e).__name__})')
         return None, ex
@@ -748,6 +760,27 @@ RENDER = {'topology': render_topology, 'equipment': render_equipment, 'service':
           'spectrum': render_spectrum, 'simparams': render_simparams}
 PROJECT = {'topology': proj_topology, 'equipment': proj_equipment, 'service': proj_service,
            'spectrum': proj_spectrum, 'simparams': proj_simparams}
+
+
+def reorder_keyed_lists(kind, yang):
+    """the same YANG document with its keyed lists listed in another order (the lists whose legacy form is indexed by
+    the key: nf_coef by coef_order, per-degree targets / bands by degree_uid, route objects by index)"""
+    y = copy.deepcopy(yang)
+    if kind == 'equipment':
+        for e in y.get(EQPT_NS, {}).get('Edfa', []):
+            if isinstance(e.get('nf_coef'), list):
+                e['nf_coef'] = e['nf_coef'][::-1]
+    elif kind == 'topology':
+        for e in y.get(TOPO_NS, {}).get('elements', []):
+            for k in ('per_degree_power_targets', 'per_degree_design_bands_targets'):
+                if isinstance(e.get('params', {}).get(k), list):
+                    e['params'][k] = e['params'][k][::-1]
+    elif kind == 'service':
+        for q in y.get(SERV_NS, {}).get('path-request', []):
+            ero = q.get('explicit-route-objects', {})
+            if isinstance(ero.get('route-object-include-exclude'), list):
+                ero['route-object-include-exclude'] = ero['route-object-include-exclude'][::-1]
+    return y
 
 
 def placeholder(kind, form):
